@@ -585,6 +585,26 @@ def spec_thread(ctx: Ctx) -> None:
         # spec = spec or x.spec
         if isinstance(x, ast.Assign) and isinstance(x.targets[0], ast.Name) and x.targets[0].id == "spec" and isinstance(x.value, ast.BoolOp) and isinstance(x.value.op, ast.Or) and isinstance(x.value.values[0], ast.Name) and x.value.values[0].id == "spec" and unparse(x.value.values[-1]) == f"{la.params[0]}.spec":
             ok = True
+    # the same default written as a conditional expression, as a local or inline in the
+    # returned keyword arguments: `x.spec if spec is None else spec` / `spec if spec is not None else x.spec`
+    def _is_default_expr(e: ast.AST) -> bool:
+        if not isinstance(e, ast.IfExp):
+            return False
+        t = e.test
+        if not (isinstance(t, ast.Compare) and len(t.ops) == 1 and isinstance(t.left, ast.Name) and t.left.id == "spec" and isinstance(t.comparators[0], ast.Constant) and t.comparators[0].value is None and isinstance(t.ops[0], (ast.Is, ast.IsNot))):
+            return False
+        when_none, otherwise = (e.body, e.orelse) if isinstance(t.ops[0], ast.Is) else (e.orelse, e.body)
+        return unparse(when_none) == f"{la.params[0]}.spec" and isinstance(otherwise, ast.Name) and otherwise.id == "spec"
+
+    for x in la.own_nodes():
+        if isinstance(x, ast.keyword) and x.arg == "spec" and _is_default_expr(x.value):
+            ok = True
+        if isinstance(x, ast.Assign) and isinstance(x.targets[0], ast.Name) and x.targets[0].id == "spec" and _is_default_expr(x.value):
+            ok = True
+        if isinstance(x, ast.Dict):
+            for k_, v_ in zip(x.keys, x.values):
+                if isinstance(k_, ast.Constant) and k_.value == "spec" and _is_default_expr(v_):
+                    ok = True
     ctx.ob(la, None, ok, "_like_args defaults spec to the operand's spec, exactly when none was given", sel="thread:like-args")
 
 
